@@ -60,7 +60,10 @@ def _check_written(t, a, sig, **kw):
 
 def h_layout(nr, nc, zeros):
     md = pick(['none', 'both'], 'md')
-    t, a = make_table(nr, nc, md=md, zeros=zeros, type_=pick(['OTU table', None], 'type'), late_zero=True)
+    ids_kw = {}
+    if flag('non-ascii-ids'):       # byte length differs from character count; the longest id in characters is not the longest in bytes
+        ids_kw = dict(obs_ids=['\u00e9\u00e9\u00e9', 'abcde', 'xy'][:nr], samp_ids=['caf\u00e91', 'caf\u00e92', '\u65e5\u672c'][:nc])
+    t, a = make_table(nr, nc, md=md, zeros=zeros, type_=pick(['OTU table', None], 'type'), late_zero=True, **ids_kw)
     if md == 'both' and flag('category-names-with-slashes'):
         for ax in ('observation', 'sample'):
             t.add_metadata({i: {'barcode/seq': 'ACGT', 'flow mL/min/m2': 1.5 + k} for k, i in enumerate(a.ids(ax))}, axis=ax)
